@@ -1,0 +1,90 @@
+//go:build verif
+
+package scanner
+
+import (
+	"reflect"
+	"runtime"
+	"strconv"
+	"strings"
+)
+
+// VerifOnStep, when set, is called before every byte is evaluated by the current step
+// function (verification builds only). It must be set before any scanner runs.
+var VerifOnStep func(s *Scanner)
+
+func verifOnStep(s *Scanner) {
+	if VerifOnStep != nil {
+		VerifOnStep(s)
+	}
+}
+
+func verifFuncName(f stepFunc) string {
+	if f == nil {
+		return "nil"
+	}
+	n := runtime.FuncForPC(reflect.ValueOf(f).Pointer()).Name()
+	if i := strings.LastIndexByte(n, '.'); i >= 0 {
+		n = n[i+1:]
+	}
+	return n
+}
+
+// VerifStepName returns the name of the current step function.
+func (s *Scanner) VerifStepName() string { return verifFuncName(s.step) }
+
+// VerifKey returns the abstract state of the scanner on which its future behaviour depends:
+// current step function, the top of the step stack, the event stack with capped distances
+// to the read position, pending finds and the three parameter predicates.
+func (s *Scanner) VerifKey(stackTop int, distCap int) string {
+	var b strings.Builder
+	b.WriteString(verifFuncName(s.step))
+	b.WriteString("|S:")
+	n := len(s.stepStack)
+	lo := n - stackTop
+	if lo < 0 {
+		lo = 0
+	}
+	if lo > 0 {
+		b.WriteString("+")
+	}
+	for i := lo; i < n; i++ {
+		b.WriteString(verifFuncName(s.stepStack[i]))
+		b.WriteByte(',')
+	}
+	b.WriteString("|E:")
+	for _, e := range s.stack {
+		b.WriteString(strconv.Itoa(int(e.type_)))
+		b.WriteByte('@')
+		d := int(s.curIndex) - int(e.position)
+		if d > distCap {
+			d = distCap
+		}
+		b.WriteString(strconv.Itoa(d))
+		b.WriteByte(',')
+	}
+	b.WriteString("|F:")
+	for _, e := range s.finds {
+		b.WriteString(strconv.Itoa(int(e.type_)))
+		b.WriteByte('@')
+		b.WriteString(strconv.Itoa(int(s.curIndex) - int(e.position)))
+		b.WriteByte(',')
+	}
+	b.WriteString("|P:")
+	if s.isDirectiveParameterHasTypeOrAnyOrEmpty() {
+		b.WriteByte('T')
+	}
+	if !s.isDirectiveParameterHasAnyOrEmpty() {
+		b.WriteByte('A')
+	}
+	if s.isDirectiveParameterHasRegexNotation() {
+		b.WriteByte('R')
+	}
+	return b.String()
+}
+
+// VerifStepStackLen returns the depth of the step stack.
+func (s *Scanner) VerifStepStackLen() int { return len(s.stepStack) }
+
+// VerifEventStackLen returns the number of open lexeme events.
+func (s *Scanner) VerifEventStackLen() int { return len(s.stack) }
